@@ -75,7 +75,9 @@ Inductive rerr := EBincode | EMagic | EHeaderCrc | EDataCrc | EKeySize | EBlobMa
 Inductive res (A : Type) := ROk (a : A) | RFail (e : rerr).
 Arguments ROk {A}. Arguments RFail {A}.
 
+(* a positional read of zero bytes never fails, even beyond the end of the file *)
 Definition slice (b : bytes) (off len : N) : option bytes :=
+  if len =? 0 then Some [] else
   if off + len <=? N.of_nat (length b) then Some (firstn (N.to_nat len) (skipn (N.to_nat off) b)) else None.
 
 (* Header::validate: magic, then header checksum *)
